@@ -307,7 +307,7 @@ def run_cbmc(ctx, job, u, trace_property=None):
         cmd += ["--json-ui"]
     if ctx.keep:
         open(os.path.join(u["dir"], "cmd-%s.txt" % job.entry), "w").write(" ".join(cmd) + "\n")
-    timeout = job.timeout or (150 if ctx.tier == "quick" else 1800)
+    timeout = job.timeout or (300 if ctx.tier == "quick" else 1800)
     t0 = time.time()
     ctx.acquire(job.mem_gb)
     try:
